@@ -548,12 +548,18 @@ func checkC13(c *Ctx) {
 		}
 		// the hook calls Decompress on the response
 		hookOK := false
-		if mc, ok := reg.Call.Args[1].(*ssa.MakeClosure); ok {
-			eachInstr(mc.Fn.(*ssa.Function), func(_ *ssa.BasicBlock, _ int, in ssa.Instruction) {
-				if cc := callOf(in); cc != nil && calleeFn(cc) != nil && calleeFn(cc).Name() == "Decompress" {
+		if hf := funcValue(reg.Call.Args[1]); hf != nil {
+			// a closure, a bound method value (synthetic wrapper) or a plain function: look two levels deep
+			for _, h := range append([]*ssa.Function{hf}, staticCalleesDeep(hf, 2)...) {
+				if h.Name() == "Decompress" {
 					hookOK = true
 				}
-			})
+				eachInstr(h, func(_ *ssa.BasicBlock, _ int, in ssa.Instruction) {
+					if cc := callOf(in); cc != nil && calleeFn(cc) != nil && calleeFn(cc).Name() == "Decompress" {
+						hookOK = true
+					}
+				})
+			}
 		}
 		c.Check(hookOK, "R6", "hook decompresses the reply", reg.Pos(), "closure calls Decompress", "the registered hook does not decompress the reply")
 		skipG := p.Global(redisPkg, "wkSkipCheckCmdsInDecps")
@@ -585,6 +591,29 @@ func checkC13(c *Ctx) {
 					if u, ok := lk.X.(*ssa.UnOp); ok && skipG != nil && u.X == ssa.Value(skipG) {
 						okc = edge == 1 // not in the skip set
 					}
+				}
+			case *ssa.Call:
+				// a helper that only performs nil tests on the configuration (no Enable / threshold read)
+				if g := calleeFn(x.Common()); g != nil && isModFn(g) && g.Blocks != nil {
+					pure := true
+					for _, h := range append([]*ssa.Function{g}, staticCalleesDeep(g, 1)...) {
+						if !isModFn(h) {
+							continue
+						}
+						eachInstr(h, func(_ *ssa.BasicBlock, _ int, y ssa.Instruction) {
+							if bo, ok := y.(*ssa.BinOp); ok {
+								if !((bo.Op == token.EQL || bo.Op == token.NEQ) && (isNilConst(bo.Y) || isNilConst(bo.X))) {
+									pure = false
+								}
+							}
+							if v, isV := y.(ssa.Value); isV {
+								if f, _ := fieldAddr(v); f != nil && (f.Name() == "Enable" || f.Name() == "Threshold") {
+									pure = false
+								}
+							}
+						})
+					}
+					okc = pure
 				}
 			}
 			if !okc {
@@ -665,10 +694,18 @@ func checkCpsHeader(c *Ctx, decFn *ssa.Function) {
 	}
 	up := t.Updates[0]
 	fn := up.Parent()
+	// the header may be assembled by a helper: cpsHdrs[alg] = build(alg)
+	wf, algKey := fn, stripConv(up.Key)
+	viaHelper := false
+	if hc, ok := stripConv(up.Value).(*ssa.Call); ok {
+		if g := calleeFn(hc.Common()); g != nil && isModFn(g) && g.Blocks != nil && len(g.Params) == 1 && len(hc.Call.Args) == 1 && sameValueOrLoad(stripConv(hc.Call.Args[0]), stripConv(up.Key)) {
+			wf, algKey, viaHelper = g, ssa.Value(g.Params[0]), true
+		}
+	}
 	var ws, wb, wc ssa.Instruction
-	eachInstr(fn, func(_ *ssa.BasicBlock, _ int, in ssa.Instruction) {
+	eachInstr(wf, func(_ *ssa.BasicBlock, _ int, in ssa.Instruction) {
 		call, ok := in.(*ssa.Call)
-		if !ok || in.Block() != up.Block() {
+		if !ok || (!viaHelper && in.Block() != up.Block()) {
 			return
 		}
 		switch {
@@ -678,7 +715,7 @@ func checkCpsHeader(c *Ctx, decFn *ssa.Function) {
 			}
 		case isCallTo(call, "(*bytes.Buffer).WriteByte"):
 			// byte(algorithm) where algorithm is the map key
-			if stripConv(call.Call.Args[1]) == stripConv(up.Key) {
+			if stripConv(call.Call.Args[1]) == algKey {
 				wb = in
 			}
 		case isCallTo(call, "(*bytes.Buffer).Write"):
@@ -687,15 +724,22 @@ func checkCpsHeader(c *Ctx, decFn *ssa.Function) {
 			}
 		}
 	})
-	okW := ws != nil && wb != nil && wc != nil && instrDominates(ws, wb) && instrDominates(wb, wc) && instrDominates(wc, up)
+	okW := ws != nil && wb != nil && wc != nil && instrDominates(ws, wb) && instrDominates(wb, wc) && (viaHelper || instrDominates(wc, up))
 	if okW {
-		// nothing else written to the buffer in that block
+		// nothing else written to the buffer
 		cnt := 0
-		for _, in := range up.Block().Instrs {
+		count := func(in ssa.Instruction) {
 			if call, ok := in.(*ssa.Call); ok {
 				if g := calleeFn(call.Common()); g != nil && strings.HasPrefix(g.String(), "(*bytes.Buffer).Write") {
 					cnt++
 				}
+			}
+		}
+		if viaHelper {
+			eachInstr(wf, func(_ *ssa.BasicBlock, _ int, in ssa.Instruction) { count(in) })
+		} else {
+			for _, in := range up.Block().Instrs {
+				count(in)
 			}
 		}
 		okW = cnt == 3
@@ -703,41 +747,58 @@ func checkCpsHeader(c *Ctx, decFn *ssa.Function) {
 	c.Check(okW, "R5", "header writer layout", up.Pos(), "magic, byte(algorithm), CRLF in this order and nothing else", "the header that is written is not magic ‖ algorithm byte ‖ CR LF")
 	// reader
 	var guardOK, magicOK, algOK, stripOK bool
+	// the reader and the helpers it hands its source parameter to (the header checks may live in a helper)
+	readerFns := []*ssa.Function{decFn}
 	eachInstr(decFn, func(_ *ssa.BasicBlock, _ int, in ssa.Instruction) {
-		switch x := in.(type) {
-		case *ssa.BinOp:
-			if x.Op == token.LSS {
-				if call, ok := x.X.(*ssa.Call); ok && isBuiltin(call, "len") {
-					if v, isC := constInt(x.Y); isC && v == hdrLen {
-						guardOK = true
+		if call, ok := in.(*ssa.Call); ok {
+			if g := calleeFn(call.Common()); g != nil && isModFn(g) && g.Blocks != nil {
+				for _, a := range call.Call.Args {
+					if _, isP := a.(*ssa.Parameter); isP {
+						if _, isSl := a.Type().Underlying().(*types.Slice); isSl {
+							readerFns = append(readerFns, g)
+						}
 					}
-				}
-			}
-		case *ssa.Slice:
-			if _, isP := x.X.(*ssa.Parameter); !isP {
-				return
-			}
-			if x.Low == nil && x.High != nil {
-				if v, isC := constInt(x.High); isC && v == int64(len(magic)) {
-					magicOK = true
-				}
-			}
-			if x.Low != nil && x.High == nil {
-				if v, isC := constInt(x.Low); isC && v == hdrLen {
-					stripOK = true
-				} else if isC {
-					stripOK = false
-					c.Fail("R5", "reader strips header", x.Pos(), fmt.Sprintf("reader strips %d bytes, the header has %d", v, hdrLen))
-				}
-			}
-		case *ssa.IndexAddr:
-			if _, isP := x.X.(*ssa.Parameter); isP {
-				if v, isC := constInt(x.Index); isC && v == int64(len(magic)) {
-					algOK = true
 				}
 			}
 		}
 	})
+	for _, rf := range readerFns {
+		eachInstr(rf, func(_ *ssa.BasicBlock, _ int, in ssa.Instruction) {
+			switch x := in.(type) {
+			case *ssa.BinOp:
+				if x.Op == token.LSS {
+					if call, ok := x.X.(*ssa.Call); ok && isBuiltin(call, "len") {
+						if v, isC := constInt(x.Y); isC && v == hdrLen {
+							guardOK = true
+						}
+					}
+				}
+			case *ssa.Slice:
+				if _, isP := x.X.(*ssa.Parameter); !isP {
+					return
+				}
+				if x.Low == nil && x.High != nil {
+					if v, isC := constInt(x.High); isC && v == int64(len(magic)) {
+						magicOK = true
+					}
+				}
+				if x.Low != nil && x.High == nil {
+					if v, isC := constInt(x.Low); isC && v == hdrLen {
+						stripOK = true
+					} else if isC {
+						stripOK = false
+						c.Fail("R5", "reader strips header", x.Pos(), fmt.Sprintf("reader strips %d bytes, the header has %d", v, hdrLen))
+					}
+				}
+			case *ssa.IndexAddr:
+				if _, isP := x.X.(*ssa.Parameter); isP {
+					if v, isC := constInt(x.Index); isC && v == int64(len(magic)) {
+						algOK = true
+					}
+				}
+			}
+		})
+	}
 	c.Check(guardOK, "R5", "reader length guard", decFn.Pos(), "len(src) < cpsHdrLen rejects", "the reader does not reject values shorter than the header")
 	c.Check(magicOK, "R5", "reader tests magic at [0:len(magic)]", decFn.Pos(), "offsets agree", "the reader does not compare the first len(magic) bytes with the magic number")
 	c.Check(algOK, "R5", "reader takes algorithm at [len(magic)]", decFn.Pos(), "offset agrees", "the reader does not take the algorithm byte from offset len(magic)")
@@ -858,4 +919,25 @@ func checkReplyWalk(c *Ctx, rule string) {
 	}
 	c.Check(okRec, rule, "array arm recurses", at, "each element is handed to a function that leads back to the reply decompression", "the elements of an array reply are processed by a function that does not descend further: values nested one level deeper (HSCAN, nested multi-bulk) are returned to the client still compressed")
 	c.Check(okBack, rule, "decompressed copy stored back", at, "in place, or copy stored back into the array", "an element is decompressed on a copy that is not stored back into the array: the client receives the compressed bytes")
+}
+
+// sameValueOrLoad: identical SSA values, or two loads of the same element / field address expression.
+func sameValueOrLoad(a, b ssa.Value) bool {
+	if a == b {
+		return true
+	}
+	la, ok1 := a.(*ssa.UnOp)
+	lb, ok2 := b.(*ssa.UnOp)
+	if !ok1 || !ok2 || la.Op != token.MUL || lb.Op != token.MUL {
+		return false
+	}
+	switch xa := la.X.(type) {
+	case *ssa.IndexAddr:
+		xb, ok := lb.X.(*ssa.IndexAddr)
+		return ok && xa.X == xb.X && xa.Index == xb.Index
+	case *ssa.FieldAddr:
+		xb, ok := lb.X.(*ssa.FieldAddr)
+		return ok && xa.X == xb.X && xa.Field == xb.Field
+	}
+	return la.X == lb.X
 }
